@@ -77,7 +77,8 @@ def _near_axis(t):
 
 def axis3(lo_exp=-3, hi_exp=6):
     """direction x length log-uniform"""
-    return st.tuples(direction3(), st.one_of(st.just(1.0), logmag(lo_exp, hi_exp))).map(
+    near_unit = st.tuples(st.sampled_from([-1.0, 1.0]), st.integers(3, 12)).map(lambda t: 1.0 + t[0] * 10.0 ** (-t[1]))
+    return st.tuples(direction3(), st.one_of(st.just(1.0), logmag(lo_exp, hi_exp), near_unit)).map(
         lambda t: [x * t[1] for x in t[0]])
 
 
@@ -86,9 +87,11 @@ def direction2():
                      st.sampled_from([[1.0, 0.0], [0.0, 1.0], [-1.0, 0.0], [0.0, -1.0]]))
 
 
-def trans(dim=3, lo_exp=-6, hi_exp=6, zero=True):
+def trans(dim=3, lo_exp=-6, hi_exp=6, zero=True, tiny=False):
     d = direction3() if dim == 3 else direction2()
     mags = [logmag(lo_exp, hi_exp), logmag(-1, 1)]
+    if tiny:
+        mags.append(logmag(-12, -6))
     if hi_exp > 3:
         mags.append(logmag(3, hi_exp))
     if zero:
@@ -101,8 +104,8 @@ def rot3(lo_exp=-15, via=True):
     return st.fixed_dictionaries({"axis": direction3(), "angle": rot_angles(lo_exp), "via": vias})
 
 
-def pose3(t_hi=6, lo_exp=-15):
-    return st.fixed_dictionaries({"rot": rot3(lo_exp), "t": trans(3, -6, t_hi)})
+def pose3(t_hi=6, lo_exp=-15, tiny=False):
+    return st.fixed_dictionaries({"rot": rot3(lo_exp), "t": trans(3, -6, t_hi, tiny=tiny)})
 
 
 def angle2():
